@@ -653,6 +653,23 @@ func run(c Sx) Result {
 		if r.class() == 99 {
 			fails = append(fails, "unclassified error: "+r.err.Error())
 		}
+		if r.class() == 0 { // version_and_cipher_checked, directly on the implementation
+			var hdr struct {
+				Version interface{} `json:"version"`
+				Crypto  struct {
+					Cipher string `json:"cipher"`
+				} `json:"crypto"`
+			}
+			_ = json.Unmarshal(text, &hdr)
+			if v, isStr := hdr.Version.(string); !(isStr && v == "1") {
+				if f, isNum := hdr.Version.(float64); !isNum || f != 3 {
+					fails = append(fails, fmt.Sprintf("file with version %v accepted", hdr.Version))
+				}
+				if hdr.Crypto.Cipher != "aes-128-ctr" {
+					fails = append(fails, "file with cipher "+hdr.Crypto.Cipher+" accepted")
+				}
+			}
+		}
 		kind := int64(0)
 		var okey, oaddr []byte
 		mut := "none"
@@ -1275,8 +1292,71 @@ func emitDec(emit func(Sx), text, pass []byte, kind int64, vf validFile, mut str
 	return true
 }
 
+// regression inputs: files on which passphrase.go panicked before the repair cbf4dace20
+// (also stored in corpus/C52/panic_inputs.txt); they must now return errors.
+func regressionCases(emit func(Sx)) {
+	r := NewRng(52)
+	raw := func(js string) {
+		vf := validFile{}
+		emitDec(emit, []byte(js), []byte("x"), 0, vf, "regression")
+	}
+	const head = `{"version":3,"id":"3198bc9c-6672-5ab3-d995-4942343ae5b6","crypto":{"cipher":"aes-128-ctr","mac":"","ciphertext":"","cipherparams":{"iv":"000102030405060708090a0b0c0d0e0f"}`
+	raw(head + `}}`)
+	raw(head + `,"kdf":"scrypt","kdfparams":{"salt":"","dklen":"32","n":2,"r":8,"p":1}}}`)
+	raw(head + `,"kdf":"scrypt","kdfparams":{"salt":"","dklen":0,"n":2,"r":8,"p":1}}}`)
+	raw(head + `,"kdf":"scrypt","kdfparams":{"salt":"","dklen":-1,"n":2,"r":8,"p":1}}}`)
+	raw(head + `,"kdf":"scrypt","kdfparams":{"salt":5,"dklen":32,"n":2,"r":8,"p":1}}}`)
+	raw(head + `,"kdf":"scrypt","kdfparams":{"salt":"","dklen":32,"n":null,"r":8,"p":1}}}`)
+	raw(head + `,"kdf":"pbkdf2","kdfparams":{"salt":"","dklen":32,"c":"2","prf":"hmac-sha256"}}}`)
+	raw(head + `,"kdf":"pbkdf2","kdfparams":{"salt":"","dklen":32,"c":2}}}`)
+	raw(head + `,"kdf":"bcrypt","kdfparams":{"dklen":32}}}`)
+	raw(`{"version":3,"id":"3198bc9c-6672-5ab3-d995-4942343ae5b6","crypto":{"cipher":"aes-128-ctr","mac":"","ciphertext":"","cipherparams":{"iv":""}}}`)
+	// right passphrase, valid MAC, malformed IV / ciphertext length: reached cipher.NewCTR,
+	// cipher.NewCBCDecrypter and CryptBlocks panics
+	for i := 0; i < 2; i++ {
+		vf := makeScryptFile(r)
+		root := parseTree(vf.text)
+		ivn := root.get("crypto").get("cipherparams")
+		ivn.set("iv", jstr(ivn.get("iv").s[:30-2*i*15]))
+		emitDec(emit, root.text(), vf.pass, 4, vf, "regression-iv")
+	}
+	{
+		vf := makeV1File(r)
+		root := parseTree(vf.text)
+		ivn := root.get("crypto").get("cipherparams")
+		ivn.set("iv", jstr(ivn.get("iv").s[:30]))
+		emitDec(emit, root.text(), vf.pass, 4, vf, "regression-iv")
+	}
+	{ // V1 file whose ciphertext is not a whole number of blocks, MAC recomputed
+		pass, salt, iv := []byte("pw"), r.Bytes(32), r.Bytes(16)
+		dk, _ := scrypt.Key(pass, salt, 2, 8, 1, 32)
+		ct := r.Bytes(33)
+		params := &jnode{kind: 5}
+		params.set("dklen", jnum("32"))
+		params.set("n", jnum("2"))
+		params.set("p", jnum("1"))
+		params.set("r", jnum("8"))
+		params.set("salt", jstr(hex.EncodeToString(salt)))
+		root := &jnode{kind: 5}
+		root.set("crypto", cryptoNode("aes-128-cbc", ct, iv, "scrypt", params, crypto.Keccak256(dk[16:32], ct)))
+		root.set("id", jstr("3198bc9c-6672-5ab3-d995-4942343ae5b6"))
+		root.set("version", jstr("1"))
+		emitDec(emit, root.text(), pass, 0, validFile{}, "regression-v1-ctlen")
+	}
+	{ // dklen 16: decrypted before the repair (slice within capacity), rejected now
+		vf := makeScryptFile(r)
+		root := parseTree(vf.text)
+		root.get("crypto").get("kdfparams").set("dklen", jnum("16"))
+		emitDec(emit, root.text(), vf.pass, 4, vf, "regression-dklen16")
+	}
+}
+
 func gen(r *Rng, tier string, emit func(Sx)) {
 	crand.Reader = rig
+	regressionCases(emit)
+	if os.Getenv("C52_CORPUS_ONLY") != "" {
+		return
+	}
 	r = NewRng(r.U64())
 	scale := 1
 	if tier == "thorough" {
